@@ -414,6 +414,17 @@ inline void CEREAL_SAVE_FUNCTION_NAME(Archive &ar, RCP<const T> const &ptr)
     }
     ar_ptr->save_rcp_basic(rcp_static_cast<const Basic>(ptr));
 }
+// The loaders below construct the objects directly from their parts. Untrusted
+// input can describe parts that violate the invariant of the class, which the
+// rest of the library relies on, so every directly constructed object is
+// checked with the `is_canonical` predicate of its class. Sub-objects are loaded
+// (and checked) first, so the predicates only ever see canonical operands.
+inline void check_canonical_form(bool canonical)
+{
+    if (not canonical) {
+        throw SerializationError("Serialized object is not in canonical form");
+    }
+}
 template <class Archive>
 RCP<const Basic> load_basic(Archive &ar, RCP<const RealDouble> &)
 {
@@ -426,6 +437,7 @@ RCP<const Basic> load_basic(Archive &ar, RCP<const Infty> &)
 {
     RCP<const Number> direction;
     ar(direction);
+    check_canonical_form(Inf->is_canonical(direction));
     return Infty::from_direction(direction);
 }
 template <class Archive>
@@ -455,7 +467,9 @@ RCP<const Basic> load_basic(Archive &ar, RCP<const Mul> &)
     map_basic_basic dict;
     ar(coeff);
     ar(dict);
-    return make_rcp<const Mul>(coeff, std::move(dict));
+    RCP<const Mul> p = make_rcp<const Mul>(coeff, std::move(dict));
+    check_canonical_form(p->is_canonical(p->get_coef(), p->get_dict()));
+    return p;
 }
 template <class Archive>
 RCP<const Basic> load_basic(Archive &ar, RCP<const Add> &)
@@ -464,7 +478,9 @@ RCP<const Basic> load_basic(Archive &ar, RCP<const Add> &)
     umap_basic_num dict;
     ar(coeff);
     ar(dict);
-    return make_rcp<const Add>(coeff, std::move(dict));
+    RCP<const Add> p = make_rcp<const Add>(coeff, std::move(dict));
+    check_canonical_form(p->is_canonical(p->get_coef(), p->get_dict()));
+    return p;
 }
 template <class Archive>
 RCP<const Basic> load_basic(Archive &ar, RCP<const Pow> &)
@@ -472,7 +488,9 @@ RCP<const Basic> load_basic(Archive &ar, RCP<const Pow> &)
     RCP<const Basic> base, exp;
     ar(base);
     ar(exp);
-    return make_rcp<const Pow>(base, exp);
+    RCP<const Pow> p = make_rcp<const Pow>(base, exp);
+    check_canonical_form(p->is_canonical(*base, *exp));
+    return p;
 }
 template <typename Archive>
 void load_helper(Archive &ar, integer_class &intgr)
@@ -591,6 +609,8 @@ RCP<const Basic> load_basic(Archive &ar, RCP<const Interval> &)
     ar(start);
     bool right_open = load_bool(ar);
     ar(end);
+    check_canonical_form(
+        Interval::is_canonical(start, end, left_open, right_open));
     return make_rcp<const Interval>(start, end, left_open, right_open);
 }
 template <class Archive>
@@ -603,35 +623,49 @@ RCP<const Basic> load_basic(Archive &ar, RCP<const And> &)
 {
     set_boolean container;
     ar(container);
-    return make_rcp<const And>(std::move(container));
+    RCP<const And> p = make_rcp<const And>(std::move(container));
+    check_canonical_form(
+        const_cast<And &>(*p).is_canonical(p->get_container()));
+    return p;
 }
 template <class Archive>
 RCP<const Basic> load_basic(Archive &ar, RCP<const Or> &)
 {
     set_boolean container;
     ar(container);
-    return make_rcp<const Or>(std::move(container));
+    RCP<const Or> p = make_rcp<const Or>(std::move(container));
+    check_canonical_form(
+        const_cast<Or &>(*p).is_canonical(p->get_container()));
+    return p;
 }
 template <class Archive>
 RCP<const Basic> load_basic(Archive &ar, RCP<const Xor> &)
 {
     vec_boolean container;
     ar(container);
-    return make_rcp<const Xor>(std::move(container));
+    RCP<const Xor> p = make_rcp<const Xor>(std::move(container));
+    check_canonical_form(
+        const_cast<Xor &>(*p).is_canonical(p->get_container()));
+    return p;
 }
 template <class Archive>
 RCP<const Basic> load_basic(Archive &ar, RCP<const Not> &)
 {
     RCP<const Boolean> arg;
     ar(arg);
-    return make_rcp<const Not>(arg);
+    RCP<const Not> p = make_rcp<const Not>(arg);
+    check_canonical_form(const_cast<Not &>(*p).is_canonical(arg));
+    return p;
 }
 template <class Archive>
 RCP<const Basic> load_basic(Archive &ar, RCP<const Piecewise> &)
 {
     PiecewiseVec vec;
     ar(vec);
-    return make_rcp<const Piecewise>(std::move(vec));
+    RCP<const Piecewise> p = make_rcp<const Piecewise>(std::move(vec));
+    check_canonical_form(
+        const_cast<Piecewise &>(*p).is_canonical(p->get_vec()));
+    return p;
 }
 template <class Archive>
 RCP<const Basic> load_basic(Archive &ar, RCP<const Contains> &)
@@ -671,6 +705,7 @@ RCP<const Basic> load_basic(Archive &ar, RCP<const Union> &)
 {
     set_set union_set;
     ar(union_set);
+    check_canonical_form(Union::is_canonical(union_set));
     return make_rcp<const Union>(std::move(union_set));
 }
 template <class Archive>
@@ -686,6 +721,7 @@ RCP<const Basic> load_basic(Archive &ar, RCP<const ImageSet> &)
     RCP<const Basic> sym, expr;
     RCP<const Set> base;
     ar(sym, expr, base);
+    check_canonical_form(ImageSet::is_canonical(sym, expr, base));
     return make_rcp<const ImageSet>(sym, expr, base);
 }
 template <class Archive>
@@ -693,6 +729,7 @@ RCP<const Basic> load_basic(Archive &ar, RCP<const FiniteSet> &)
 {
     set_basic set;
     ar(set);
+    check_canonical_form(FiniteSet::is_canonical(set));
     return make_rcp<const FiniteSet>(set);
 }
 template <class Archive>
@@ -701,6 +738,7 @@ RCP<const Basic> load_basic(Archive &ar, RCP<const ConditionSet> &)
     RCP<const Basic> sym;
     RCP<const Boolean> condition;
     ar(sym, condition);
+    check_canonical_form(ConditionSet::is_canonical(sym, condition));
     return make_rcp<const ConditionSet>(sym, condition);
 }
 #ifdef HAVE_SYMENGINE_MPFR
@@ -719,7 +757,9 @@ RCP<const Basic> load_basic(Archive &ar, RCP<const Derivative> &)
     RCP<const Basic> arg;
     multiset_basic set;
     ar(arg, set);
-    return make_rcp<const Derivative>(arg, std::move(set));
+    RCP<const Derivative> p = make_rcp<const Derivative>(arg, std::move(set));
+    check_canonical_form(p->is_canonical(arg, p->get_symbols()));
+    return p;
 }
 template <class Archive>
 RCP<const Basic> load_basic(Archive &ar, RCP<const Subs> &)
@@ -727,7 +767,9 @@ RCP<const Basic> load_basic(Archive &ar, RCP<const Subs> &)
     RCP<const Basic> arg;
     map_basic_basic dict;
     ar(arg, dict);
-    return make_rcp<const Subs>(arg, std::move(dict));
+    RCP<const Subs> p = make_rcp<const Subs>(arg, std::move(dict));
+    check_canonical_form(p->is_canonical(arg, p->get_dict()));
+    return p;
 }
 
 template <class Archive, class T>
@@ -738,7 +780,9 @@ load_basic(Archive &ar, RCP<const T> &,
 {
     RCP<const Basic> arg;
     ar(arg);
-    return make_rcp<const T>(arg);
+    RCP<const T> p = make_rcp<const T>(arg);
+    check_canonical_form(const_cast<T &>(*p).is_canonical(arg));
+    return p;
 }
 template <class Archive, class T>
 RCP<const Basic>
@@ -748,7 +792,9 @@ load_basic(Archive &ar, RCP<const T> &,
 {
     RCP<const Basic> arg1, arg2;
     ar(arg1, arg2);
-    return make_rcp<const T>(arg1, arg2);
+    RCP<const T> p = make_rcp<const T>(arg1, arg2);
+    check_canonical_form(const_cast<T &>(*p).is_canonical(arg1, arg2));
+    return p;
 }
 template <class Archive>
 RCP<const Basic> load_basic(Archive &ar, RCP<const FunctionSymbol> &)
@@ -756,7 +802,10 @@ RCP<const Basic> load_basic(Archive &ar, RCP<const FunctionSymbol> &)
     std::string name;
     vec_basic vec;
     ar(name, vec);
-    return make_rcp<const FunctionSymbol>(name, std::move(vec));
+    RCP<const FunctionSymbol> p
+        = make_rcp<const FunctionSymbol>(name, std::move(vec));
+    check_canonical_form(p->is_canonical(p->get_vec()));
+    return p;
 }
 template <class Archive>
 RCP<const Basic> load_basic(Archive &ar, RCP<const FunctionWrapper> &)
@@ -776,7 +825,9 @@ load_basic(Archive &ar, RCP<const T> &,
 {
     vec_basic args;
     ar(args);
-    return make_rcp<const T>(std::move(args));
+    RCP<const T> p = make_rcp<const T>(std::move(args));
+    check_canonical_form(p->is_canonical(p->get_vec()));
+    return p;
 }
 template <class Archive, class T>
 RCP<const Basic>
@@ -786,7 +837,9 @@ load_basic(Archive &ar, RCP<const T> &,
 {
     RCP<const Basic> arg1, arg2;
     ar(arg1, arg2);
-    return make_rcp<const T>(arg1, arg2);
+    RCP<const T> p = make_rcp<const T>(arg1, arg2);
+    check_canonical_form(const_cast<T &>(*p).is_canonical(arg1, arg2));
+    return p;
 }
 template <class Archive, class T>
 RCP<const Basic> load_basic(
